@@ -63,20 +63,53 @@ func (m MutableMap[K, V, O, M]) GetPrefix(ctx context.Context, key K, prefixOrde
 	if err != nil {
 		return err
 	}
-	k, v := iter.Current()
-	if k != nil {
+	// Walk every pending edit whose key has the prefix |key|. A pending
+	// delete only hides its own key, not the other keys with the prefix.
+	deletes := false
+	for k, v := iter.Current(); k != nil; k, v = iter.Current() {
 		cmp, err := prefixOrder.Compare(ctx, k, key)
 		if err != nil {
 			return err
 		}
-		if cmp == 0 {
-			if v == nil {
-				k = nil // there is a pending delete of |key| in |m.Edits|.
-			}
+		if cmp != 0 {
+			break
+		}
+		if v != nil {
 			return cb(k, v)
 		}
+		deletes = true
+		iter.Advance()
 	}
-	return m.Static.GetPrefix(ctx, key, prefixOrder, cb)
+	if !deletes {
+		return m.Static.GetPrefix(ctx, key, prefixOrder, cb)
+	}
+	// Some keys with the prefix have pending deletes in |m.Edits|,
+	// find the first key with the prefix in |m.Static| that does not.
+	cur, err := newCursorAtKey(ctx, m.Static.GetNodeStore(), m.Static.GetRoot(), key, prefixOrder)
+	if err != nil {
+		return err
+	}
+	for cur.Valid() {
+		k := K(cur.CurrentKey())
+		cmp, err := prefixOrder.Compare(ctx, key, k)
+		if err != nil {
+			return err
+		}
+		if cmp != 0 {
+			break
+		}
+		_, deleted, err := m.Edits.Get(ctx, k)
+		if err != nil {
+			return err
+		}
+		if !deleted {
+			return cb(k, V(cur.currentValue()))
+		}
+		if err = cur.advance(ctx); err != nil {
+			return err
+		}
+	}
+	return cb(nil, nil)
 }
 
 func (m MutableMap[K, V, O, M]) Has(ctx context.Context, key K) (present bool, err error) {
@@ -92,31 +125,11 @@ func (m MutableMap[K, V, O, M]) Has(ctx context.Context, key K) (present bool, e
 }
 
 func (m MutableMap[K, V, O, M]) HasPrefix(ctx context.Context, key K, prefixOrder O) (present bool, err error) {
-	iter, err := m.Edits.GetIterFromSeekFn(func(k []byte) (advance bool, err error) {
-		if k != nil { // seek until |k| >= |key|
-			cmp, err := prefixOrder.Compare(ctx, k, key)
-			if err != nil {
-				return false, err
-			}
-			advance = cmp < 0
-		}
-		return
+	err = m.GetPrefix(ctx, key, prefixOrder, func(k K, _ V) error {
+		present = k != nil
+		return nil
 	})
-	if err != nil {
-		return false, err
-	}
-	k, v := iter.Current()
-	if k != nil {
-		cmp, cmpErr := prefixOrder.Compare(ctx, k, key)
-		if cmpErr != nil {
-			return false, cmpErr
-		}
-		if cmp == 0 {
-			present = v != nil
-			return
-		}
-	}
-	return m.Static.HasPrefix(ctx, key, prefixOrder)
+	return
 }
 
 func (m MutableMap[K, V, O, M]) Copy() MutableMap[K, V, O, M] {
